@@ -149,7 +149,9 @@ func (h *hdrSpec) protWire() *W {
 }
 
 func (s *sigSpec) wire() *W {
-	return wArr(s.h.protWire(), entriesWire(s.h.unprot), wBstr(s.sig))
+	w := wArr(s.h.protWire(), entriesWire(s.h.unprot), wBstr(s.sig))
+	w.Fixed = true
+	return w
 }
 
 // ---- rendering to Go-value notation
@@ -255,8 +257,8 @@ func randBytes(r *rng) []byte {
 	return r.bytes(n)
 }
 
-func randText(r *rng) []byte {
-	if r.chance(1, 12) {
+func randText(r *rng, c *genCfg) []byte {
+	if !c.goSide && c.invalid > 0 && r.chance(1, 12) {
 		// invalid UTF-8
 		return r.pick2([][]byte{{0xff}, {0xc0, 0x80}, {0xe0, 0x80, 0x80}, {0xed, 0xa0, 0x80}, {0xf4, 0x90, 0x80, 0x80}, {0x61, 0x80}})
 	}
@@ -295,7 +297,7 @@ func randAny(r *rng, c *genCfg, depth int) *hv {
 		v := randInt(r)
 		return &hv{kind: "int", i: v, spell: randSpell(r, v, c.exoticSpell)}
 	case 2:
-		return &hv{kind: "text", s: randText(r)}
+		return &hv{kind: "text", s: randText(r, c)}
 	case 3, 4:
 		return hBytes(randBytes(r))
 	case 5:
@@ -316,7 +318,7 @@ func randAny(r *rng, c *genCfg, depth int) *hv {
 			if r.chance(2, 3) {
 				key = hInt(randInt(r))
 			} else {
-				key = &hv{kind: "text", s: randText(r)}
+				key = &hv{kind: "text", s: randText(r, c)}
 			}
 			ks := key.gotext()
 			if used[ks] && (c.goSide || !r.chance(c.invalid, 100)) {
@@ -475,7 +477,19 @@ func randLabelSet(r *rng, c *genCfg, prot bool, n int) []hentry {
 		case r.chance(1, 2):
 			lab = hInt(randInt(r))
 		default:
-			lab = &hv{kind: "text", s: randText(r)}
+			lab = &hv{kind: "text", s: randText(r, c)}
+		}
+		if lab.kind == "int" && c.invalid == 0 {
+			// clean mode: registered labels only from the bucket's own list, and no
+			// countersignature parameter once the nesting budget is used up
+			inPool := false
+			for _, l := range pool {
+				inPool = inPool || l == lab.i
+			}
+			registered := lab.i >= 1 && lab.i <= 16 || lab.i >= 32 && lab.i <= 35 || lab.i >= 258 && lab.i <= 260
+			if registered && !inPool || (lab.i == 7 || lab.i == 11) && c.depth <= 0 {
+				continue
+			}
 		}
 		if lab.kind == "int" {
 			lab.spell = randSpell(r, lab.i, c.exoticSpell)
@@ -610,6 +624,15 @@ func refTBSSig(bodyProt, signProt, ext, payload []byte) []byte {
 func protContentOf(h *hdrSpec) []byte {
 	w := h.protWire()
 	return w.B
+}
+
+func hasAlgEntry(h *hdrSpec) bool {
+	for _, e := range h.prot {
+		if e.label.kind == "int" && e.label.i == 1 {
+			return true
+		}
+	}
+	return false
 }
 
 func algOf(h *hdrSpec) (int64, bool) {
